@@ -333,7 +333,15 @@ def tiger_case(rng):
         def ntline(n):
             es = list(trees.children(n))
             rng.shuffle(es)
-            parts = ["<edge label=%s idref=%s />" % (quoteattr(c.data['edge']), quoteattr(idof[id(c)])) for c in es]
+            parts = []
+            for c in es:
+                if rng.random() < 0.06:
+                    # an <edge> WITHOUT `label` (P11): `edge.get('label')` is None, the child's edge label is Python None
+                    # (the reader model: edge field `none`; it used to say the text "None")
+                    c.data['edge'] = None
+                    parts.append("<edge idref=%s />" % quoteattr(idof[id(c)]))
+                else:
+                    parts.append("<edge label=%s idref=%s />" % (quoteattr(c.data['edge']), quoteattr(idof[id(c)])))
             if rng.random() < 0.25:
                 # secondary edges below a constituent (shared arguments of coordinations): not part of the tree
                 for _ in range(rng.randint(1, 2)):
